@@ -29,7 +29,7 @@ def run(rep):
         for o in r.obls[n0:]:
             o.id = 'C02/' + o.id.split('/', 1)[1]
     return generic.run_generic(
-        rep, [(GET_TOKENS, 'text is str')] + tc.TREE_FUNCS + tc.MATCHER_FUNCS + tc.PASS_FUNCS,
+        rep, [(GET_TOKENS, 'text is str')] + tc.TREE_FUNCS + tc.MATCHER_FUNCS + tc.PASS_FUNCS + tc.JOINER_FUNCS,
         structural=[splitter_obligations, tc.grouping_frame, tc.flatten_and_str, tc.identity_side_conditions, ws_rules, df],
         assumptions=['ghost text methodology: every node carries TXT with the local invariant TXT(group) = concatenation '
                      'of TXT(children) = cached value; ownership is the token tree itself (each node has one parent, I1/I2), '
